@@ -165,6 +165,29 @@ func runC14(c *eng.Ctx) {
 	// the offset table's width covers its largest offset
 	c.Rule("GUARD", "pkg/encoding.FixedOffsetEncoder{max = maximum of the offsets}", func() { offsetEncoderMax(c) })
 
+	// one bit per slot: the bit stream is positional (BytesWithoutTime is decoded against a slot range stored elsewhere)
+	c.Rule("PASS", "pkg/encoding.TSDEncoder.AppendTime{one bit per call}", func() {
+		f := c.Fn("pkg/encoding.TSDEncoder.AppendTime")
+		wb := c.One(f, eng.AnyCallTo("pkg/bit.Writer.WriteBit"), "bitWriter.WriteBit(slot)")
+		conds, _ := eng.GuardingConds(f, wb.Instr)
+		for i, cd := range conds {
+			onlyErr := eng.DependsOnField(cd, "pkg/encoding.TSDEncoder.err") &&
+				!eng.DependsOn(cd, func(x ssa.Value) bool { pr, ok := x.(*ssa.Parameter); return ok && pr.Parent() == f && pr != f.Params[0] }) &&
+				!eng.DependsOnField(cd, "pkg/encoding.TSDEncoder.count", "pkg/encoding.TSDEncoder.startTime")
+			c.Check(onlyErr, fmt.Sprintf("bit-written-unless-poisoned[%d]", i), wb.Instr, f,
+				"the only reason not to write the slot's bit is an earlier error: every slot, empty or not, leading or not, occupies one position of the stream",
+				"the write is guarded by "+p.Desc(cd))
+		}
+		arg := eng.CallArgs(wb.Instr.(ssa.CallInstruction))[0]
+		c.Check(eng.Unwrap(arg) == ssa.Value(f.Params[1]), "bit-is-the-argument", wb.Instr, f, "the bit written is the slot's mark", "writes "+p.Desc(arg))
+		cnt := c.Some(f, eng.StoreField("pkg/encoding.TSDEncoder.count"), "e.count++")
+		for i, st := range cnt {
+			c.Check(st.Instr.Block() == wb.Instr.Block(), fmt.Sprintf("count-follows-the-bit[%d]", i), st.Instr, f, "count advances exactly when a bit is written", "")
+		}
+		owner(c, "store to TSDEncoder.startTime", eng.StoreField("pkg/encoding.TSDEncoder.startTime"),
+			[]string{"pkg/encoding.NewTSDEncoder", "pkg/encoding.TSDEncoder.RestWithStartTime"}, 2)
+	})
+
 	// an empty block is a legal block
 	c.Rule("GUARD", "pkg/encoding.FixedOffsetDecoder.GetBlock{empty range accepted}", func() { emptyBlockAccepted(c) })
 }
